@@ -28,6 +28,7 @@ type PropSpec struct {
 	Assumptions       []string `json:"assumptions"`
 	NotDecided        []string `json:"not_decided"`
 	Mutants           []string `json:"mutants"` // selftest patches expected to be caught (thorough)
+	BoundedRuns       []BoundedRun `json:"bounded_runs"` // bounded stand-ins run in the thorough tier (never counted as proved)
 }
 
 type Finding struct {
@@ -116,7 +117,7 @@ func checkMain(args []string) int {
 		return 1
 	}
 	defer os.RemoveAll(scratch())
-	timeout := 10000
+	timeout := 20000 // obligations claimed in the quick tier discharge in well under a second to a few seconds; the margin is for a loaded machine
 	if tier == "thorough" {
 		timeout = 120000
 	}
@@ -340,6 +341,32 @@ func checkMain(args []string) int {
 
 	// thorough adjuncts
 	var adjunct []map[string]interface{}
+	for _, br := range ps.BoundedRuns {
+		if tier != "thorough" && !br.Quick {
+			continue
+		}
+		res, cases, out := runBounded(verifDir, repo, br)
+		adjunct = append(adjunct, res)
+		if e, bad := res["error"]; bad {
+			violations++
+			rp := writeReplay(verifDir, prop, "bounded-"+br.ID, map[string]interface{}{"obligation": "bounded:" + br.ID, "error": e})
+			fmt.Printf("VIOLATION property=%s replay=%s no-failing-input-found\n", prop, rp)
+			continue
+		}
+		for _, c := range cases {
+			id := "bounded:" + br.ID + "/" + c
+			if f, ok := open[id]; ok {
+				nKnown++
+				seenKnown = append(seenKnown, id)
+				fmt.Printf("KNOWN-FINDING: property=%s %s %s\n", prop, id, f.What)
+				continue
+			}
+			violations++
+			rp := writeReplay(verifDir, prop, "bounded-"+br.ID+"-"+c, map[string]interface{}{"obligation": id, "bounded": br.Bound, "replay_output": out, "template": br.Template})
+			fmt.Printf("FAILED %s [bounded run on the real code] %s\n", id, br.Bound)
+			fmt.Printf("VIOLATION property=%s replay=%s\n", prop, rp)
+		}
+	}
 	if tier == "thorough" {
 		for _, m := range ps.Mutants {
 			res := runMutant(verifDir, repo, prop, m)
@@ -471,6 +498,51 @@ func writeReplay(verifDir, prop, id string, payload interface{}) string {
 
 // runMutant applies a selftest patch to a scratch copy of the repo and
 // expects the property's quick check to report a violation there.
+// BoundedRun: a bounded check of functions the contracts do not reach (or of a
+// clause no contract within reach expresses), run on the real code through a
+// replay template; labelled bounded, reported separately, never counted as
+// proved. The template prints one line "BOUNDED-FAIL <case>: ..." per failing
+// case class; a case listed in known_findings.json (obligation
+// "bounded:<id>/<case>") is a known finding, any other is a violation.
+type BoundedRun struct {
+	ID       string `json:"id"`
+	Template string `json:"template"`
+	Bound    string `json:"bound"`
+	Quick    bool   `json:"quick"` // cheap enough for the quick tier as well
+}
+
+func runBounded(verifDir, repo string, br BoundedRun) (map[string]interface{}, []string, string) {
+	res := map[string]interface{}{"kind": "bounded", "id": br.ID, "bound": br.Bound, "template": br.Template}
+	b, err := os.ReadFile(filepath.Join(verifDir, "replay", br.Template))
+	if err != nil {
+		res["error"] = err.Error()
+		return res, nil, err.Error()
+	}
+	t0 := time.Now()
+	_, out, _ := runReplay(verifDir, repo, string(b), "bounded:"+br.ID, map[string]string{})
+	res["time_s"] = round3(time.Since(t0).Seconds())
+	seen := map[string]bool{}
+	var cases []string
+	for _, ln := range strings.Split(out, "\n") {
+		if strings.HasPrefix(ln, "BOUNDED-FAIL ") {
+			c := strings.TrimPrefix(ln, "BOUNDED-FAIL ")
+			if k := strings.Index(c, ":"); k > 0 {
+				c = c[:k]
+			}
+			if !seen[c] {
+				seen[c] = true
+				cases = append(cases, c)
+			}
+		}
+	}
+	if !strings.Contains(out, "BOUNDED-DONE") {
+		res["error"] = "the bounded run did not complete: " + tail(out, 400)
+		return res, cases, tail(out, 400)
+	}
+	res["failing_cases"] = cases
+	return res, cases, tail(out, 1200)
+}
+
 func runMutant(verifDir, repo, prop, name string) map[string]interface{} {
 	res := map[string]interface{}{"kind": "selftest-mutant", "mutant": name, "caught": false}
 	patch := filepath.Join(verifDir, "selftest", "mutants", name)
